@@ -2531,3 +2531,376 @@ Proof.
   - apply adjust_max_inflight_msgs_cf in H. apply H.
   - apply load_state_quiet in H. apply H.
 Qed.
+
+(* ------------------------------------------------------------------ *)
+(* The hypothesis "the leader has voted for itself" of transfer_expires_trace is an
+   invariant: VI holds of every non-leader non-candidate state and is preserved by every
+   input.  (r_id <> 0 is asserted by RawNode::new and never changes.) *)
+Definition VI (r : raft) : Prop :=
+  (r_state r = Leader \/ r_state r = Candidate) -> r_vote r = r_id r.
+
+Definition sv (r : raft) := (r_id r, r_state r, r_vote r).
+
+Definition vip (r r' : raft) : Prop := r_id r' = r_id r /\ (r_id r <> 0 -> VI r -> VI r').
+
+Lemma vip_refl r : vip r r. Proof. split; auto. Qed.
+Lemma vip_trans a b c : vip a b -> vip b c -> vip a c.
+Proof. intros [A B] [C0 D]. split; [congruence|]. intros H1 H2. apply D; [congruence|auto]. Qed.
+Lemma sv_vip r r' : sv r' = sv r -> vip r r'.
+Proof.
+  unfold sv. intros H. inversion H as [[A B C0]]. split; [exact A|].
+  intros _ K. unfold VI in *. rewrite A, B, C0. exact K.
+Qed.
+Lemma vip_same r r1 r2 : sv r2 = sv r1 -> vip r r1 -> vip r r2.
+Proof. intros A B. eapply vip_trans; [exact B|apply sv_vip; exact A]. Qed.
+Lemma ctl_sv r r' : ctl r' = ctl r -> sv r' = sv r.
+Proof. intros H. apply ctl_fields in H. destruct H as (A & _ & _ & _ & _ & B & C0 & _). unfold sv. congruence. Qed.
+Lemma ctl_vip r r' : ctl r' = ctl r -> vip r r'.
+Proof. intros H. apply sv_vip, ctl_sv, H. Qed.
+Lemma cf_vip ty r r' : cf ty r r' -> vip r r'.
+Proof. intros [_ H]. apply ctl_vip, H. Qed.
+Lemma vi_to r r' : r_id r' = r_id r -> (r_id r <> 0 -> VI r') -> vip r r'.
+Proof. intros A B. split; auto. Qed.
+Lemma VI_not_lc r : r_state r <> Leader -> r_state r <> Candidate -> VI r.
+Proof. intros A B [C0|C0]; contradiction. Qed.
+
+Ltac vip_peel :=
+  lazymatch goal with
+  | |- vip ?a ?a => idtac
+  | |- vip _ (put_pr ?r1 _ _) => apply (vip_same _ r1); [solve_upd r1|]; vip_peel
+  | |- vip _ (set_conf_prs ?r1 _ _) => apply (vip_same _ r1); [solve_upd r1|]; vip_peel
+  | |- vip _ (set _ _ ?r1) => apply (vip_same _ r1); [solve_upd r1|]; vip_peel
+  | _ => idtac
+  end.
+
+Ltac vip_chain :=
+  vip_peel;
+  first [ assumption | apply vip_refl
+        | match goal with
+          | H : vip ?a ?b |- vip _ ?b => eapply vip_trans; [|exact H]; vip_chain
+          | H : cf _ ?a ?b |- vip _ ?b => eapply vip_trans; [|exact (cf_vip _ _ _ H)]; vip_chain
+          end ].
+
+Lemma reset_sv r t r' : reset r t = Ok r' ->
+  r_id r' = r_id r /\ r_state r' = r_state r /\ (r_term r = t -> r_vote r' = r_vote r).
+Proof.
+  unfold reset. intros H. destruct (negb (r_term r =? t)) eqn:E; cbn in H;
+  match type of H with match ?d with _ => _ end = _ => destruct d end;
+    try discriminate; inversion H; subst; cbn; repeat split; auto.
+  intros K. apply negb_true_iff in E. apply N.eqb_neq in E. contradiction.
+Qed.
+
+Lemma become_follower_vip r t l r' : become_follower r t l = Ok r' -> vip r r'.
+Proof.
+  intros H. pose proof (become_follower_clears _ _ _ _ H) as (_ & _ & S).
+  unfold become_follower in H. inv_bind H. inversion H; subst; clear H.
+  apply reset_sv in Hx. destruct Hx as (A & _). apply vi_to; [exact A|].
+  intros _. apply VI_not_lc; cbn; discriminate.
+Qed.
+
+Lemma become_candidate_vip r r' : become_candidate r = Ok r' -> vip r r'.
+Proof.
+  unfold become_candidate. intros H. destruct (is_leader r); [discriminate|].
+  inv_bind H. inversion H; subst; clear H. apply reset_sv in Hx. destruct Hx as (A & _).
+  apply vi_to; [exact A|]. intros _ _. reflexivity.
+Qed.
+
+Lemma become_pre_candidate_vip r r' : become_pre_candidate r = Ok r' -> vip r r'.
+Proof.
+  unfold become_pre_candidate. intros H. destruct (is_leader r); [discriminate|].
+  inversion H; subst; clear H. apply vi_to; [reflexivity|].
+  intros _. apply VI_not_lc; cbn; discriminate.
+Qed.
+
+Lemma become_leader_vip r r' :
+  become_leader r = Ok r' -> r_state r <> PreCandidate -> vip r r'.
+Proof.
+  unfold become_leader. intros H Hs. destruct (role_eqb (r_state r) Follower) eqn:Ef; [discriminate|].
+  inv_bind H. apply reset_sv in Hx. destruct Hx as (A & B & C0). specialize (C0 eq_refl).
+  match type of H with (if ?c then _ else _) = _ => destruct c end; [discriminate|].
+  match type of H with match ?d with _ => _ end = _ => destruct d end; [|discriminate].
+  inv_bind H. destruct x0 as [r6 ok]. destruct ok; [|discriminate]. inversion H; subst; clear H.
+  apply append_entry_tn in Hx.
+  match type of Hx with cf _ ?r5 _ =>
+    assert (K : cf MsgTimeoutNow (x <| r_leader_id := r_id x |> <| r_state := Leader |>) r5)
+      by cf_solve
+  end.
+  pose proof (cf_trans _ _ _ _ K Hx) as [_ L]. apply ctl_sv in L. unfold sv in L. cbn in L.
+  inversion L as [[L1 L2 L3]]. split; [congruence|].
+  intros _ V _. rewrite L1, L3, C0, A. apply V.
+  destruct (r_state r); cbn in Ef; try discriminate; auto. contradiction.
+Qed.
+
+Lemma poll_gen_vip rc r from v r' res :
+  (forall a b, rc a = Ok b -> vip a b) ->
+  poll_gen rc r from v = Ok (r', res) -> vip r r'.
+Proof.
+  intros Hrc H. unfold poll_gen in H. cbn zeta in H.
+  match type of H with match ?d with _ => _ end = _ => destruct d end.
+  - inversion H; subst; clear H. vip_chain.
+  - inv_bind H. inversion H; subst; clear H. apply become_follower_vip in Hx. vip_chain.
+  - match type of H with (if role_eqb ?s _ then _ else _) = _ => destruct s eqn:Es end;
+      cbn [role_eqb] in H.
+    1,2,3: inv_bind H; inv_bind H; inversion H; subst; clear H;
+           apply become_leader_vip in Hx; [|rewrite Es; discriminate];
+           apply bcast_append_tn in Hx0; vip_chain.
+    inv_bind H. inversion H; subst; clear H. apply Hrc in Hx. vip_chain.
+Qed.
+
+Lemma send_vote_requests_ctl vote_msg t cmt cmt_term tl ids r r' :
+  send_vote_requests ids r vote_msg t cmt cmt_term tl = Ok r' -> ctl r' = ctl r.
+Proof. intros H. apply send_vote_requests_spec in H. apply H. Qed.
+
+Lemma campaign_real_vip tl r r' : campaign_real tl r = Ok r' -> vip r r'.
+Proof.
+  unfold campaign_real. intros H. inv_bind H. inv_bind H. destruct x0 as [r2 res].
+  apply become_candidate_vip in Hx.
+  apply poll_gen_vip in Hx0; [|intros a b K; discriminate K].
+  assert (K : vip x r2 -> vip r r2) by (intros K; eapply vip_trans; eassumption).
+  destruct res.
+  - inv_bind H. apply send_vote_requests_ctl in H. apply ctl_vip in H.
+    eapply vip_trans; [apply K; exact Hx0|exact H].
+  - inv_bind H. apply send_vote_requests_ctl in H. apply ctl_vip in H.
+    eapply vip_trans; [apply K; exact Hx0|exact H].
+  - inversion H; subst. apply K. exact Hx0.
+Qed.
+
+Lemma poll_vip r from v r' res : poll r from v = Ok (r', res) -> vip r r'.
+Proof. unfold poll. apply poll_gen_vip. intros a b. apply campaign_real_vip. Qed.
+
+Lemma campaign_pre_vip r r' : campaign_pre r = Ok r' -> vip r r'.
+Proof.
+  unfold campaign_pre. intros H. inv_bind H. inv_bind H. destruct x0 as [r2 res].
+  apply become_pre_candidate_vip in Hx. apply poll_vip in Hx0.
+  assert (K : vip r r2) by (eapply vip_trans; eassumption).
+  destruct res.
+  - inv_bind H. apply send_vote_requests_ctl in H. apply ctl_vip in H. eapply vip_trans; eassumption.
+  - inv_bind H. apply send_vote_requests_ctl in H. apply ctl_vip in H. eapply vip_trans; eassumption.
+  - inversion H; subst. exact K.
+Qed.
+
+Lemma hup_vip r tl r' : hup r tl = Ok r' -> vip r r'.
+Proof.
+  intros H. unfold hup in H. destruct (is_leader r); [inversion H; apply vip_refl|].
+  inv_bind H. destruct x; [inversion H; apply vip_refl|].
+  destruct tl; [eapply campaign_real_vip; exact H|].
+  destruct (r_pre_vote r); [eapply campaign_pre_vip; exact H|eapply campaign_real_vip; exact H].
+Qed.
+
+Lemma maybe_commit_by_vote_vip r m r' : maybe_commit_by_vote r m = Ok r' -> vip r r'.
+Proof.
+  intros H. unfold maybe_commit_by_vote in H.
+  destruct ((m_commit m =? 0) || (m_commit_term m =? 0)); [inversion H; apply vip_refl|].
+  destruct ((m_commit m <=? committed (r_log r)) || is_leader r); [inversion H; apply vip_refl|].
+  inv_bind H. destruct x as [l' b].
+  destruct (negb b); [inversion H; subst; vip_chain|].
+  match type of H with (if ?c then _ else _) = _ => destruct c end; [inversion H; subst; vip_chain|].
+  inv_bind H. destruct x; [|inversion H; subst; vip_chain].
+  apply become_follower_vip in H. vip_chain.
+Qed.
+
+Lemma pcc_check_sv r3 : sv (pcc_check r3) = sv r3.
+Proof.
+  unfold pcc_check. destruct (r_lead_transferee r3); [|reflexivity].
+  destruct (negb _); reflexivity.
+Qed.
+
+Lemma post_conf_change_vip r r' cs : post_conf_change r = Ok (r', cs) -> vip r r'.
+Proof.
+  intros H. apply post_conf_change_shape_tn in H.
+  destruct H as [_ [[-> _]|(_ & _ & _ & r3 & A & ->)]].
+  - vip_chain.
+  - eapply vip_trans; [eapply cf_vip; exact A|]. apply sv_vip. apply pcc_check_sv.
+Qed.
+
+Lemma restore_vip r s r' b : restore r s = Ok (r', b) -> vip r r'.
+Proof.
+  intros H. unfold restore in H.
+  destruct (s_index s <? committed (r_log r)); [inversion H; apply vip_refl|].
+  destruct (negb (role_eqb (r_state r) Follower)).
+  { inv_bind H. inversion H; subst. eapply become_follower_vip; eassumption. }
+  match type of H with (if ?c then _ else _) = _ => destruct c end; [inversion H; apply vip_refl|].
+  inv_bind H.
+  match type of H with (if ?c then _ else _) = _ => destruct c end.
+  { inv_bind H. inversion H; subst. vip_chain. }
+  inv_bind H.
+  match type of H with match ?d with _ => _ end = _ => destruct d as [[c' ids']|] end; [|discriminate].
+  inv_bind H. destruct x1 as [r1 new_cs].
+  match type of H with (if ?c then _ else _) = _ => destruct c end; [discriminate|].
+  match type of H with match ?d with _ => _ end = _ => destruct d end; [|discriminate].
+  destruct (next_idx p =? 0); [discriminate|]. inversion H; subst; clear H.
+  apply post_conf_change_vip in Hx1. vip_chain.
+Qed.
+
+Lemma handle_snapshot_vip r m r' : handle_snapshot r m = Ok r' -> vip r r'.
+Proof.
+  intros H. unfold handle_snapshot in H. inv_bind H. destruct x as [r1 ok].
+  apply restore_vip in Hx.
+  destruct ok; apply (send_cf MsgTimeoutNow) in H; try reflexivity; vip_chain.
+Qed.
+
+Definition handle_append_entries_tn := ltac:(let L := tn handle_append_entries_cf in exact L).
+Definition handle_heartbeat_tn := ltac:(let L := tn handle_heartbeat_cf in exact L).
+
+Lemma step_candidate_vip r m r' c : step_candidate r m = Ok (r', c) -> vip r r'.
+Proof.
+  intros H. unfold step_candidate in H.
+  destruct (m_type m =? MsgPropose); [inversion H; apply vip_refl|].
+  match type of H with (if ?c then _ else _) = _ => destruct c end.
+  { destruct (negb (r_term r =? m_term m)); [discriminate|].
+    inv_bind H. inv_bind H. inversion H; subst; clear H. apply become_follower_vip in Hx.
+    destruct (m_type m =? MsgAppend); [apply handle_append_entries_tn in Hx0; vip_chain|].
+    destruct (m_type m =? MsgHeartbeat); [apply handle_heartbeat_tn in Hx0; vip_chain|].
+    apply handle_snapshot_vip in Hx0. vip_chain. }
+  match type of H with (if ?c then _ else _) = _ => destruct c end;
+    [|inversion H; apply vip_refl].
+  match type of H with (if ?c then _ else _) = _ => destruct c end;
+    [inversion H; apply vip_refl|].
+  inv_bind H. inv_bind H. inversion H; subst; clear H. destruct x as [r1 res].
+  apply poll_vip in Hx. apply maybe_commit_by_vote_vip in Hx0. cbn [fst] in Hx0. vip_chain.
+Qed.
+
+Lemma step_follower_vip r m r' c : step_follower r m = Ok (r', c) -> vip r r'.
+Proof.
+  intros H. unfold step_follower in H.
+  destruct (m_type m =? MsgPropose).
+  { destruct (r_leader_id r =? INVALID_ID); [inversion H; apply vip_refl|].
+    destruct (r_disable_proposal_forwarding r); [inversion H; apply vip_refl|].
+    inv_bind H. inversion H; subst; clear H. apply send_spec in Hx.
+    destruct Hx as (y & -> & _). vip_chain. }
+  destruct (m_type m =? MsgAppend).
+  { inv_bind H. inversion H; subst; clear H. apply handle_append_entries_tn in Hx. vip_chain. }
+  destruct (m_type m =? MsgHeartbeat).
+  { inv_bind H. inversion H; subst; clear H. apply handle_heartbeat_tn in Hx. vip_chain. }
+  destruct (m_type m =? MsgSnapshot).
+  { inv_bind H. inversion H; subst; clear H. apply handle_snapshot_vip in Hx. vip_chain. }
+  destruct (m_type m =? MsgTransferLeader).
+  { destruct (r_leader_id r =? INVALID_ID); [inversion H; apply vip_refl|].
+    inv_bind H. inversion H; subst; clear H. apply send_spec in Hx.
+    destruct Hx as (y & -> & _). vip_chain. }
+  destruct (m_type m =? MsgTimeoutNow).
+  { destruct (r_promotable r); [|inversion H; apply vip_refl].
+    inv_bind H. inversion H; subst; clear H. eapply hup_vip; exact Hx. }
+  destruct (m_type m =? MsgReadIndex).
+  { destruct (r_leader_id r =? INVALID_ID); [inversion H; apply vip_refl|].
+    inv_bind H. inversion H; subst; clear H. apply send_spec in Hx.
+    destruct Hx as (y & -> & _). vip_chain. }
+  destruct (m_type m =? MsgReadIndexResp); [|inversion H; apply vip_refl].
+  destruct (m_entries m) as [|e [|e2 es]]; try (inversion H; apply vip_refl).
+  inv_bind H. inversion H; subst; clear H. vip_chain.
+Qed.
+
+Lemma sl_out_vip r m r' : sl_out r m r' -> vip r r'.
+Proof.
+  intros [H|H1 H2 H3 H4 H5|x H1 H2 _ _ _ _|o H1 H2 H3 H4 ->|H1 H2].
+  - eapply cf_vip; exact H.
+  - apply vi_to; [destruct H2 as (_ & K & _); unfold cfg in K; inversion K; reflexivity|].
+    intros _. apply VI_not_lc; rewrite H4; discriminate.
+  - apply ctl_vip; exact H2.
+  - vip_chain.
+  - apply tl_started_facts in H2. destruct H2 as [A _]. apply ctl_sv in A. apply sv_vip. exact A.
+Qed.
+
+Lemma step_main_vip r m r' c : step_main r m = Ok (r', c) -> vip r r'.
+Proof.
+  intros H. unfold step_main in H.
+  destruct (m_type m =? MsgHup).
+  { inv_bind H. inversion H; subst; clear H. eapply hup_vip; exact Hx. }
+  match type of H with (if ?c then _ else _) = _ => destruct c end.
+  { inv_bind H. inv_bind H.
+    match type of H with (if ?c then _ else _) = _ => destruct c eqn:Eg end.
+    - inv_bind H. apply send_spec in Hx1. destruct Hx1 as (y & -> & _).
+      destruct (m_type m =? MsgRequestVote) eqn:Ev; inversion H; subst; clear H; [|vip_chain].
+      split; [reflexivity|]. intros Hid V Hs. cbn in Hs |- *. specialize (V Hs).
+      apply andb_prop in Eg. destruct Eg as [Eg _]. apply andb_prop in Eg. destruct Eg as [Eg _].
+      unfold vote_granted in Eg. apply N.eqb_eq in Ev. rewrite Ev in Eg.
+      change (MsgRequestVote =? MsgRequestPreVote) with false in Eg. cbn [andb] in Eg.
+      rewrite orb_false_r in Eg. apply orb_prop in Eg. destruct Eg as [Eg|Eg].
+      + apply N.eqb_eq in Eg. congruence.
+      + apply andb_prop in Eg. destruct Eg as [Eg _]. apply N.eqb_eq in Eg.
+        unfold INVALID_ID in Eg. congruence.
+    - inv_bind H. inv_bind H. inv_bind H. inversion H; subst; clear H.
+      apply send_spec in Hx2. destruct Hx2 as (y & -> & _).
+      apply maybe_commit_by_vote_vip in Hx3. vip_chain. }
+  destruct (r_state r) eqn:Es.
+  - eapply step_follower_vip; exact H.
+  - eapply step_candidate_vip; exact H.
+  - apply step_leader_shape in H. apply sl_out_vip in H. exact H.
+  - eapply step_candidate_vip; exact H.
+Qed.
+
+Theorem step_vip r m r' c : step r m = Ok (r', c) -> vip r r'.
+Proof.
+  intros H. rewrite step_eq in H. inv_bind H.
+  apply step_pre_shape in Hx. destruct Hx as [->|[(r1 & c1 & -> & A)|(Hlt & r0 & l & -> & A)]].
+  - eapply step_main_vip; exact H.
+  - inversion H; subst. eapply cf_vip; exact A.
+  - apply become_follower_vip in A. apply step_main_vip in H. eapply vip_trans; eassumption.
+Qed.
+
+Theorem tick_vip r r' b : tick r = Ok (r', b) -> vip r r'.
+Proof.
+  intros H. unfold tick in H.
+  assert (Hel : tick_election r = Ok (r', b) -> vip r r').
+  { clear H. unfold tick_election. intros H.
+    match type of H with (if ?c then _ else _) = _ => destruct c end;
+      [inversion H; subst; vip_chain|].
+    inv_bind H. inversion H; subst; clear H. destruct x as [r1 c]. cbn [fst].
+    apply step_vip in Hx. vip_chain. }
+  destruct (r_state r); try (apply Hel; exact H). clear Hel.
+  unfold tick_heartbeat in H.
+  apply bind_ok in H. destruct H as ([ra hr] & HA & H).
+  assert (Ha : vip r ra).
+  { match type of HA with (if ?c then _ else _) = _ => destruct c end;
+      [|inversion HA; subst; vip_chain].
+    apply bind_ok in HA. destruct HA as ([r3 hr3] & HB & HA). inversion HA; subst; clear HA.
+    assert (H3 : vip r r3).
+    { match type of HB with (if ?c then _ else _) = _ => destruct c end;
+        [|inversion HB; subst; vip_chain].
+      apply bind_ok in HB. destruct HB as ([rz cz] & HC & HB). inversion HB; subst; clear HB.
+      cbn [fst]. apply step_vip in HC. vip_chain. }
+    match goal with |- vip _ (if ?c then _ else _) => destruct c end; vip_chain. }
+  destruct (negb (is_leader ra)); [inversion H; subst; exact Ha|].
+  match type of H with (if ?c then _ else _) = _ => destruct c end;
+    [|inversion H; subst; exact Ha].
+  apply bind_ok in H. destruct H as ([rz cz] & HD & H). inversion H; subst; clear H. cbn [fst].
+  apply step_vip in HD. vip_chain.
+Qed.
+
+Theorem rn_apply_vip n i n' : rn_apply n i = Ok n' -> vip (rn_raft n) (rn_raft n').
+Proof.
+  intros H. apply rn_apply_effect in H.
+  destruct H as [_ E|m c E K|b E K|cc ocs E K|E1 E2 K].
+  - rewrite E. apply vip_refl.
+  - eapply step_vip; exact K.
+  - eapply tick_vip; exact K.
+  - apply apply_conf_change_frame in K. destruct K as (_ & Hc & K1 & _ & K3 & _).
+    apply cfg_id in Hc. destruct Hc as [Hc _]. apply sv_vip. unfold sv. congruence.
+  - apply ctl_vip. apply K.
+Qed.
+
+Theorem rn_run_vip : forall is n n', rn_run n is = Ok n' -> vip (rn_raft n) (rn_raft n').
+Proof.
+  induction is as [|i rest IH]; intros n n' H; cbn [rn_run] in H.
+  - inversion H; apply vip_refl.
+  - inv_bind H. apply rn_apply_vip in Hx. apply IH in H. eapply vip_trans; eassumption.
+Qed.
+
+(* the trace theorem without the assumption on the leader's vote: start anywhere VI holds
+   (e.g. any follower), run any inputs, and once the node leads with a transfer pending,
+   election_timeout - election_elapsed further ticks clear it *)
+Theorem transfer_expires_from_any_start is0 is n0 n n' :
+  r_id (rn_raft n0) <> 0 -> VI (rn_raft n0) ->
+  rn_run n0 is0 = Ok n ->
+  is_leader (rn_raft n) = true ->
+  rn_run n is = Ok n' ->
+  Forall (benign (r_id (rn_raft n))) is ->
+  0 < count_ticks is ->
+  r_election_timeout (rn_raft n) <= r_election_elapsed (rn_raft n) + count_ticks is ->
+  r_lead_transferee (rn_raft n') = None.
+Proof.
+  intros Hid Hvi H0 Hl H1 Hb Hp Hk. apply rn_run_vip in H0. destruct H0 as [A B].
+  eapply transfer_expires_trace; try eassumption.
+  - apply B; auto. left. apply is_leader_state. exact Hl.
+  - congruence.
+Qed.
